@@ -12,6 +12,7 @@ import (
 	"math/rand"
 	"os"
 	"sort"
+	"strings"
 	"sync"
 	"sync/atomic"
 	"testing"
@@ -58,8 +59,15 @@ func runStressRound(r stressRound) stressResult {
 	}
 	var pc atomic.Int64
 	verifhook.SetPause(func(p string) {
-		if n := pc.Add(1); n%5 == 0 {
-			time.Sleep(time.Duration(20+n%300) * time.Microsecond)
+		n := pc.Add(1)
+		switch {
+		case strings.HasPrefix(p, "delete."):
+			// a delete in flight is held at each of its points long enough for publishers to roll the segment
+			time.Sleep(time.Duration(100+n%400) * time.Microsecond)
+		case strings.HasPrefix(p, "publish.rollover."), strings.HasPrefix(p, "reader.gc."), p == "reader.index.before-load":
+			time.Sleep(time.Duration(30+n%200) * time.Microsecond)
+		case n%6 == 0:
+			time.Sleep(time.Duration(20+n%200) * time.Microsecond)
 		}
 	})
 	defer verifhook.SetPause(nil)
@@ -352,7 +360,7 @@ func TestC08Stress(t *testing.T) {
 	}
 	for i := 0; i < rounds; i++ {
 		rnd := rand.New(rand.NewSource(seed + int64(i)*7919))
-		r := stressRound{Seed: seed + int64(i)*7919, Rollover: int64(100 + 100*rnd.Intn(4)), Keep: rnd.Intn(2) == 0, V1: rnd.Intn(4) == 0,
+		r := stressRound{Seed: seed + int64(i)*7919, Rollover: int64(100 + 100*rnd.Intn(4)), Keep: rnd.Intn(3) != 0, V1: rnd.Intn(4) == 0,
 			Pubs: 1 + rnd.Intn(3), Dels: 1 + rnd.Intn(2), Readers: 1 + rnd.Intn(3), MS: ms}
 		res := runStressRound(r)
 		st.Eval(res.Calls)
